@@ -493,7 +493,8 @@ class C14(Check):
                     sim.count('c14.error-in-cleanup')
                     raise KeyError('cleanup fails')
                 if kind == 'noncallable':
-                    return 42
+                    # (what a cleanup function handing back the reply of the hardware may return)
+                    return [42, 0, False, '', (), 0.0, 'ok'][k % 7]
                 sim.count('c14.cleanup-chain')
                 return make_chain(int(kind[-1]), k)
             fn.__name__ = name
